@@ -3,6 +3,7 @@ import Apko.Proofs.Lemmas.FSAtomic
 import Apko.Proofs.Lemmas.FSData
 import Apko.Proofs.Lemmas.FSInvStep
 import Apko.Proofs.Lemmas.FSShape
+import Apko.Proofs.Lemmas.FSCount
 import Apko.Generated.FS
 /-! C17 — the virtual file systems behave like a file system (theorems over `Model/FS.lean`) -/
 namespace Apko.C17
@@ -341,6 +342,18 @@ theorem hardlinks_share (c : Cfg) (fs : FS) (o n : Text) (pi t : Ino)
   by_cases hpt : pi = t
   · subst hpt; simp [hpl, lookup_setChild]
   · simp [hpt, hpl, lookup_setChild]
+
+/-! ### loop detection -/
+
+/-- **resolve_terminates / loop detection**: the lookup function is total by construction (structural
+recursion on the nesting budget and the component list, no artificial fuel), and a lookup that
+succeeds has followed at most `maxLinks` links *in total* — the counter is shared by the nested
+lookups of link targets (F17c repaired), as POSIX demands (`ELOOP` beyond the limit). -/
+theorem resolve_loop_detection (fs : FS) (d : Nat) (p : Text) (i : Ino) (n : Nat)
+    (h : getNodeD fs d p 0 = .ok (i, n)) : n ≤ maxLinks := by
+  have := getNodeD_count fs d p 0 i n h
+  unfold CountOK at this
+  omega
 
 /-! ### statements kept at full strength but not proved here -/
 
